@@ -31,7 +31,7 @@ inductive Kind
   /-- no fault: the input must be accepted -/
   | valid
   -- faults the reader finds
-  | unknownChar | missingParam | illegalDuration | unterminatedQuote | unterminatedCond
+  | unknownChar | missingParam | illegalDuration | unterminatedQuote | unterminatedCond | unterminatedKey
   -- structural faults (validation / conversion)
   | loopUnclosed | loopStrayEnd | strayBreak | missingCall | missingIns | wrongIns | noteRange
   /-- `%n` naming a platform command that is not defined (found by the converter) -/
@@ -39,7 +39,7 @@ inductive Kind
   deriving Repr, DecidableEq
 
 def Kind.isParse : Kind → Bool
-  | .unknownChar | .missingParam | .illegalDuration | .unterminatedQuote | .unterminatedCond => true
+  | .unknownChar | .missingParam | .illegalDuration | .unterminatedQuote | .unterminatedCond | .unterminatedKey => true
   | _ => false
 
 /-- the faults for which the property demands the faulty command itself (on channel tracks) -/
